@@ -278,4 +278,19 @@ def respond (bs : Nat) (content ctype boundary : Bytes) (isHead : Bool) (range :
         ⟨206, partsBytes parts + (parts.map (·.sep.length)).sum + (finalBoundary boundary).length,
           none, true, mrRun content bs info⟩
 
+/-- one request as a reused `File` object sees it: the method, what the file holds when the request is
+    served, the boundary this response draws (time/pid derived) and the `Range` header -/
+structure Req where
+  isHead : Bool
+  content : Bytes
+  boundary : Bytes
+  range : Option Bytes
+
+/-- ONE `File` object (e.g. `root.putChild(b"f", File(path))`) serving requests one after the other.
+    `render_GET` starts with `self.restat(False)` and keeps `rangeInfo`, `contentLength`, the boundary and
+    the producer in locals / per-request objects: the only thing that survives on the object from one
+    request to the next is `self.type` (`ctype` here, fixed by the file name and `defaultType`). -/
+def serve (bs : Nat) (ctype : Bytes) (reqs : List Req) : List Resp :=
+  reqs.map fun q => respond bs q.content ctype q.boundary q.isHead q.range
+
 end Twisted.Http.Range
